@@ -349,6 +349,35 @@ impl Scenario for C07 {
         let lg_sizes: Vec<u8> = (0..nn).map(|_| if mixed { rng.range(lo, hi) as u8 } else { base }).collect();
         let domain = *rng.pick(&[16u32, 40, 100, 400, 1500]);
         let mut acts = vec![];
+        if kind == 0 && rng.chance(1, 150) {
+            // an adversarial key set: some 300 items whose home slot (Murmur, seed 9001, low bits) is one
+            // of the first four of a 512- or 1024-slot map - one probe run longer than 255 slots - the
+            // late ones heavy, then fillers up to the purge that removes the light head of the run
+            let lg = *rng.pick(&[9u8, 10]);
+            let mut colliders: Vec<u32> = vec![];
+            let mut others: Vec<u32> = vec![];
+            let mut id = rng.below(2000) as u32;
+            while colliders.len() < 310 {
+                let h = crate::refhash::murmur3_x64_128(&item_i64(id).to_le_bytes(), 9001).0;
+                if h & 1023 < 4 {
+                    colliders.push(id);
+                } else if others.len() < 900 {
+                    others.push(id);
+                }
+                id += 1;
+            }
+            for &c in &colliders[..270] {
+                acts.push(Act::Update { n: 0, item: c, w: 1 });
+            }
+            for &c in &colliders[270..] {
+                acts.push(Act::Update { n: 0, item: c, w: 1000 });
+            }
+            for &o in &others {
+                acts.push(Act::Update { n: 0, item: o, w: 1 });
+            }
+            acts.push(Act::Check { n: 0 });
+            return (Cfg { kind, lg_sizes: vec![lg, lg], domain: id + 1 }, acts);
+        }
         if rng.chance(1, 40) {
             // a count beyond i64::MAX (valid for the u64 counters; the total still fits u64): the
             // node that takes it keeps updating, purging, checkpointing and restarting
